@@ -1,0 +1,16 @@
+//go:build verif
+
+package util
+
+// Contracts for govc (see /verif/DESIGN.md). Comment-only file: contributes no code.
+
+//@ func StripPrefix
+//@   property C01 C16
+//@   ensures res == stripped(path, prefix)
+//@   ensures !hasPrefix(path, prefix) ==> res == path
+//@   ensures hasPrefix(path, prefix) ==> hasPrefix(res, "/")
+
+//@ func ResolveURLPath
+//@   property C16
+//@   ensures baseURL == "" ==> res == pathOrURL
+//@   ensures baseURL != "" && pathOrURL == "" ==> res == baseURL
